@@ -242,8 +242,18 @@ def finish(pid, tier, seed, t0, proof, run, rule, trusted_base, assumptions, ext
     findings = list(run["findings"])
     if run["crashes"]:
         sys.stderr.write("harness crash:\n" + run["crashes"][0]["crash"] + "\n")
-        write_evidence(pid, tier, seed, t0, proof, run, rule, trusted_base, assumptions, extra_cov, 0, [])
-        return 2
+        changed = (DRIFT.get(pid) or {}).get("anchored_files_changed_since_lock") or []
+        if not changed:
+            # the recorded tree: a crash is a defect of the harness, not a verdict
+            write_evidence(pid, tier, seed, t0, proof, run, rule, trusted_base, assumptions, extra_cov, 0, [])
+            return 2
+        # the anchored source differs from the recorded tree and the harness - which runs clean on the recorded tree - can
+        # no longer even evaluate a case: the correspondence is broken (the enlarged search follows; without a failing
+        # input the verdict is no-failing-input-found, with the traceback as replay data)
+        for cr in run["crashes"][:3]:
+            findings.append(Finding("correspondence", "harness/cannot-evaluate-the-changed-code",
+                                    "shard %r: the harness raised while running / judging a case on the changed source (%s):\n%s"
+                                    % (cr.get("shard"), ", ".join(changed), cr["crash"][-2500:]), {"seed": seed, "shard": cr.get("shard"), "tier": tier}))
     mon = [f for f in findings if f["kind"] == "monitor"]
     cor = [f for f in findings if f["kind"] == "correspondence"]
     proof_failed = list(proof.get("failed", []))
